@@ -499,6 +499,7 @@ static void crash_report( const char* how, const long offset )
    const std::string sig = "C10|" + std::string( e->fam->name ) + "::" + e->kindname + " " + how;
    const std::string detail = "\"rule\":\"" + vf::jesc( e->name ) + "\",\"input_hex\":\"" + vf::hex( std::string( reinterpret_cast< const char* >( slot( n ) ), n ) ) + "\",\"expected\":\"match or no match without touching memory past the given size\",\"observed\":\"" + how + ( offset >= 0 ? " at offset " + std::to_string( offset ) + " of a " + std::to_string( n ) + " byte input (guard page fault)" : std::string() ) + "\"";
    vf::violation( sig, detail, case_string( *e, slot( n ), n ) );
+   vf::violation( "C03|" + sig.substr( 4 ), detail, case_string( *e, slot( n ), n ) );  // the same event is a bounds violation (C03)
    vf::st.exhaustive = false;
    vf::st.note += " ABORTED after a crash inside the library; remaining domain not explored.";
    vf::finish();
